@@ -413,7 +413,11 @@ PROPS["C07"] = dict(
               "are queried on the writing node and on a replica fed by its broadcasts, against a map model and the reference matcher. (2) End to end "
               "on 1-2 in-process nodes: retained publishes (QoS 0-2), clears, plain publishes, subscribe / re-subscribe / unsubscribe by new and "
               "existing clients; every client's PUBLISH multiset - topic, payload AND retain flag - must equal the model after every step (retained "
-              "copy flagged, exactly one per matching topic per SUBSCRIBE; live copy unflagged; nothing after a clear; other topics untouched)."),
+              "copy flagged, exactly one per matching topic per SUBSCRIBE; live copy unflagged; nothing after a clear; other topics untouched). "
+              "(3) Two or three nodes writing the same two topics with the same few payloads (repeats are frequent) under one strictly increasing "
+              "virtual clock, broadcasts held back until generated flush points: whenever everything has been delivered every node must replay, "
+              "per topic, the payload of the latest Set, or nothing after a clear; exhaustive over all histories of 2-4 (thorough 6) operations "
+              "from two nodes on one topic with all gossip held to the end."),
         note=_L3_NOTE,
         technique="model-based property testing (exhaustive small scope + rapid) at state level, stateful property-based testing end to end",
     ),
@@ -425,6 +429,8 @@ PROPS["C07"] = dict(
         dict(name="stateenum", pkg="c07", run="TestStateEnum", shards=dict(quick=4, thorough=16), timeout=dict(quick=300, thorough=1800)),
         dict(name="state", pkg="c07", run="TestState", checks=dict(quick=10000, thorough=100000), shards=dict(quick=8, thorough=16), timeout=dict(quick=300, thorough=1800)),
         dict(name="e2e", pkg="c07", run="TestE2E", checks=dict(quick=640, thorough=6000), shards=16, timeout=dict(quick=400, thorough=2400), shrinktime="90s"),
+        dict(name="writers", pkg="c07", run="TestTwoWriters", checks=dict(quick=20000, thorough=200000), shards=dict(quick=4, thorough=16), timeout=dict(quick=300, thorough=1800)),
+        dict(name="writersenum", pkg="c07", run="TestTwoWritersEnum", shards=dict(quick=2, thorough=16), timeout=dict(quick=300, thorough=1800)),
     ],
 )
 
